@@ -9,7 +9,13 @@ State: the log of launch outcomes of the pool since the last reset, and the cond
   window (the four most recent outcomes); otherwise the condition keeps its value;
 * recording a success sets it True exactly when failures then fill less than half; otherwise it keeps
   its value;
-* a reset (NodePool or NodeClass edited) forgets every earlier outcome and makes the condition Unknown;
+* a reset (NodePool or NodeClass edited, or the NodeClass replaced by another version of it) forgets every
+  earlier outcome and makes the condition Unknown.  Kubernetes identifies the version of an object's spec by
+  `metadata.generation`: the NodeClass has changed iff its generation is not the one the pool launched with
+  before — whether it went up (an edit) or down (the object was deleted and re-created: generation 1 again);
+  a replacement that carries the same generation is not observable as a change and is no reset;
+* other writers of the NodePool's status (nodepool.readiness reporting NodeClassReady, whatever copy of the
+  NodePool it worked from) do not touch the condition;
 * a restart loses the log; what survives is the persisted condition, and the log restarts from the
   shortest history that reproduces it (True: one success; False: the least number of failures that fill
   half of the window; Unknown: nothing);
@@ -36,20 +42,25 @@ deriving Repr, DecidableEq
 structure S where
   cond : C
   log  : List Bool
+  /-- `metadata.generation` of the NodeClass the pool launches with -/
+  classGen : Nat
 deriving Repr, DecidableEq
 
-def S.init : S := { cond := .unknown, log := [] }
+def S.init : S := { cond := .unknown, log := [], classGen := 1 }
+
+/-- a reset: every earlier outcome is forgotten, the condition is Unknown -/
+def S.forget (classGen : Nat) : S := { cond := .unknown, log := [], classGen := classGen }
 
 /-- health of the four most recent outcomes of a log -/
 def healthOf (log : List Bool) : Health := health bufferSize thrNum thrDen log
 
 def recordFailure (s : S) : S :=
   let log := s.log ++ [false]
-  { log := log, cond := if healthOf log = .unhealthy then .false_ else s.cond }
+  { s with log := log, cond := if healthOf log = .unhealthy then .false_ else s.cond }
 
 def recordSuccess (s : S) : S :=
   let log := s.log ++ [true]
-  { log := log, cond := if healthOf log = .healthy then .true_ else s.cond }
+  { s with log := log, cond := if healthOf log = .healthy then .true_ else s.cond }
 
 /-- One launch attempt is one outcome: however late, however often the controller looks at the NodeClaim,
     and whatever the API server answered in between (the `Fault` an event carries is invisible here). -/
@@ -64,8 +75,10 @@ def step (s : S) : Ev → S
   | .lateFailure _ => recordFailure s
   | .noise => s
   | .resync => s
-  | .poolEdit _ => { cond := .unknown, log := [] }
-  | .classEdit _ => { cond := .unknown, log := [] }
+  | .poolEdit _ => S.forget s.classGen
+  | .classEdit _ => S.forget (s.classGen + 1)
+  -- another version of the NodeClass (lower or higher generation): a reset; the same generation: nothing to see
+  | .classReplace g _ => if g = s.classGen then s else S.forget g
   | .restart =>
     { s with log := match s.cond with
         | .true_ => [true]
